@@ -195,6 +195,11 @@ class Scheduler(object):
             result = tok
         return status, result
 
+    def outcome_for(self, a):
+        x = a["x"]
+        shape = (self.prog["tasks"].get(a["task"]) or {}).get("shape", "token")
+        return self.outcome(a["task"], x.visit, x.attempt, a["item"], shape)
+
     def latency(self, task, visit, attempt, item):
         KS = self.KS
         x = KS.u("latency", task, visit, attempt, item)
@@ -330,8 +335,7 @@ class Scheduler(object):
             if a is None:
                 continue
             x = a["x"]
-            shape = (self.prog["tasks"].get(a["task"]) or {}).get("shape", "token")
-            status, result = self.outcome(a["task"], x.visit, x.attempt, a["item"], shape)
+            status, result = self.outcome_for(a)
             if w.cancel_req and self.K.u("cancel_outcome", aid) < self.f["act_canceled"]:
                 status = "canceled"    # keeps the payload shape of the task
                 self.stats["fault_act_canceled"] = self.stats.get("fault_act_canceled", 0) + 1
